@@ -144,6 +144,15 @@ Example C09_table_wf_satisfiable :
   create_session (fun id => negb (id =? 65535)) 65534 2 = Ok (65535, 1).
 Proof. split; [intros _; exists 65535; repeat split; discriminate|vm_compute; reflexivity]. Qed.
 
+(* the close path of the LCP handler: a Protocol-Reject of LCP itself (0xC021) received in Opened
+   sends a Terminate-Request "LCP rejected" and leaves the automaton in Closing (4); a Protocol-Reject
+   of IPCP leaves it in Opened; a critical Code-Reject in Stopped gives Closed (2) *)
+Example C09_lcp_close_path :
+  lcp_receive 9 1 [8; 9; 0; 6; 192; 33] = Ok [5 :: reason_lcp; [99; 4]] /\
+  lcp_receive 9 1 [8; 9; 0; 6; 128; 33] = Ok [[99; 9]] /\
+  lcp_receive 3 1 [7; 9; 0; 5; 1] = Ok [[99; 2]].
+Proof. vm_compute. repeat split; reflexivity. Qed.
+
 (* the witnesses of the repaired defects are rejected inputs now, not panics (regression) *)
 Example C09_witnesses :
   handle_discovery 0 [17; 9; 0; 0; 5; 0] [] = Ok [[0]] /\
